@@ -626,6 +626,12 @@ theorem isWord_of_lower (u : UEnv) (x : Char) (h : isAsciiLower x = true) : u.is
   have ha := alnum_of_alpha x (alpha_of_lower x h)
   simp [UEnv.isWord, ascii_of_alnum x ha, ha]
 
+theorem isXid_of_alnum (u : UEnv) (x : Char) (h : isAsciiAlnum x = true) : u.isXidContinue x = true := by
+  simp [UEnv.isXidContinue, ascii_of_alnum x h, h]
+
+theorem isWord_of_alnum (u : UEnv) (x : Char) (h : isAsciiAlnum x = true) : u.isWord x = true := by
+  simp [UEnv.isWord, ascii_of_alnum x h, h]
+
 theorem dropWhile_append_of_ne_nil {α} (f : α → Bool) (a b : List α) (h : a.dropWhile f ≠ []) :
     (a ++ b).dropWhile f = a.dropWhile f ++ b := by
   induction a with
@@ -651,7 +657,13 @@ theorem applyCase_suffix (u : UEnv) (c : NameCase) (v p Y : Str) (hne : p ≠ []
       rcases List.mem_cons.1 hx with rfl | hx
       · simp [UEnv.isWord, isAscii]
       · exact isWord_of_lower u x (hp x hx)
-    rw [List.filter_append, hfp, dropWhile_append_of_ne_nil _ _ _ hY]
+    have hfx : List.filter u.isXidContinue ('_' :: p) = '_' :: p := by
+      rw [List.filter_eq_self]
+      intro x hx
+      rcases List.mem_cons.1 hx with rfl | hx
+      · simp [UEnv.isXidContinue, isAscii]
+      · exact isXid_of_alnum u x (alnum_of_alpha x (alpha_of_lower x (hp x hx)))
+    rw [List.filter_append, hfp, List.filter_append, hfx, dropWhile_append_of_ne_nil _ _ _ hY]
     rfl
   | pascal =>
     simp only [applyCase, Option.some.injEq] at h ⊢
@@ -871,8 +883,10 @@ theorem case_some_of_InD (e : Env) (u : UEnv) (c : NameCase) (name : Str) (h : I
     have hw : u.isWord x = true := by
       have := alnum_of_alpha x ha
       simp [UEnv.isWord, ascii_of_alnum x this, this]
+    have hxi : u.isXidContinue x = true := isXid_of_alnum u x (alnum_of_alpha x ha)
     obtain ⟨y, t, hyt, _⟩ := dropWhile_head (fun c => !(isAsciiAlpha c || c = '_'))
-      (name.filter u.isWord) x (List.mem_filter.2 ⟨hx, hw⟩) (by simp [ha])
+      ((name.filter u.isWord).filter u.isXidContinue) x
+      (List.mem_filter.2 ⟨List.mem_filter.2 ⟨hx, hw⟩, hxi⟩) (by simp [ha])
     unfold originalCase
     rw [hyt]; simp
   · obtain ⟨r, hr, hh, _⟩ := applyCase_shape u c hc name h.2
@@ -983,25 +997,19 @@ theorem run_total (e : Env) (u : UEnv) (cv : Conv) (hg : goodPrefix cv = true) (
 
 /-! ### originalCase -/
 
-/-- every `\w` character of the name is allowed inside a Python identifier -/
-def XidSafe (u : UEnv) (s : Str) : Prop := ∀ x ∈ s, u.isWord x = true → u.isXidContinue x = true
-
-theorem xid_of_ascii_word (u : UEnv) (x : Char) (ha : isAscii x = true) (hw : u.isWord x = true) :
-    u.isXidContinue x = true := by
-  simpa [UEnv.isWord, UEnv.isXidContinue, ha] using hw
-
-theorem original_identifier (u : UEnv) (n : Str) (hh : headAlpha (alnum n) = true)
-    (hx : XidSafe u n) : u.isIdentifier (originalCase u n) = true := by
+/-- `originalCase` keeps only identifier characters, so in state D its result is an identifier -/
+theorem original_identifier (u : UEnv) (n : Str) (hh : headAlpha (alnum n) = true) :
+    u.isIdentifier (originalCase u n) = true := by
   obtain ⟨x, hxn, ha⟩ := exists_alpha_of_headAlpha n hh
-  have hw : u.isWord x = true := by
-    have := alnum_of_alpha x ha
-    simp [UEnv.isWord, ascii_of_alnum x this, this]
+  have hw : u.isWord x = true := isWord_of_alnum u x (alnum_of_alpha x ha)
+  have hxi : u.isXidContinue x = true := isXid_of_alnum u x (alnum_of_alpha x ha)
   obtain ⟨y, t, hyt, hy⟩ := dropWhile_head (fun c => !(isAsciiAlpha c || c = '_'))
-    (n.filter u.isWord) x (List.mem_filter.2 ⟨hxn, hw⟩) (by simp [ha])
-  have hsub : ∀ z ∈ y :: t, z ∈ n ∧ u.isWord z = true := by
+    ((n.filter u.isWord).filter u.isXidContinue) x
+    (List.mem_filter.2 ⟨List.mem_filter.2 ⟨hxn, hw⟩, hxi⟩) (by simp [ha])
+  have hsub : ∀ z ∈ y :: t, u.isXidContinue z = true := by
     intro z hz
     rw [← hyt] at hz
-    exact List.mem_filter.1 ((List.dropWhile_sublist _).subset hz)
+    exact (List.mem_filter.1 ((List.dropWhile_sublist _).subset hz)).2
   unfold originalCase
   rw [hyt]
   simp only [UEnv.isIdentifier, Bool.and_eq_true]
@@ -1015,7 +1023,163 @@ theorem original_identifier (u : UEnv) (n : Str) (hh : headAlpha (alnum n) = tru
     · simp [UEnv.isXidStart, isAscii]
   · rw [List.all_eq_true]
     intro z hz
-    obtain ⟨hzn, hzw⟩ := hsub z (by simp [hz])
-    exact hx z hzn hzw
+    exact hsub z (by simp [hz])
+
+/-! ### termination for every prefix `Filters` accepts -/
+
+theorem stopWords_short : Tables.stopWords.all (fun w => decide (w.length ≤ 8)) = true := by
+  decide +kernel
+
+theorem alnum_length_le (v : Str) : (alnum v).length ≤ v.length := by
+  unfold alnum
+  rw [List.length_map]
+  exact List.length_filter_le _ _
+
+theorem alnum_filter_sup (p : Char → Bool) (hp : ∀ c, isAsciiAlnum c = true → p c = true) (v : Str) :
+    alnum (v.filter p) = alnum v := by
+  unfold alnum
+  rw [List.filter_filter]
+  congr 1
+  apply List.filter_congr
+  intro c _
+  cases h : isAsciiAlnum c
+  · simp
+  · simp [hp c h]
+
+theorem alnum_dropWhile_head (l : Str) (h : headAlpha (alnum l) = true) :
+    alnum (l.dropWhile (fun c => !(isAsciiAlpha c || c = '_'))) = alnum l := by
+  induction l with
+  | nil => rfl
+  | cons x t ih =>
+    rw [List.dropWhile_cons]
+    split
+    · rename_i hx
+      have hxa : isAsciiAlpha x = false := by
+        cases hxa : isAsciiAlpha x
+        · rfl
+        · simp [hxa] at hx
+      rw [alnum_cons] at h ⊢
+      split at h
+      · simp [headAlpha, isAsciiAlpha_lowerA, hxa] at h
+      · rename_i hn
+        simp only [hn] 
+        exact ih h
+    · rfl
+
+theorem alnum_originalCase (u : UEnv) (n : Str) (h : headAlpha (alnum n) = true) :
+    alnum (originalCase u n) = alnum n := by
+  unfold originalCase
+  have h1 : alnum ((n.filter u.isWord).filter u.isXidContinue) = alnum n := by
+    rw [alnum_filter_sup _ (isXid_of_alnum u), alnum_filter_sup _ (isWord_of_alnum u)]
+  rw [alnum_dropWhile_head _ (by rw [h1]; exact h), h1]
+
+/-- in state D every case function keeps the slug -/
+theorem alnum_case_InD (e : Env) (u : UEnv) (c : NameCase) (n Y : Str) (h : InD e n)
+    (hY : applyCase u c n = some Y) : alnum Y = alnum n := by
+  by_cases hc : c = .original
+  · subst hc
+    simp only [applyCase, Option.some.injEq] at hY
+    subst hY
+    exact alnum_originalCase u n h.2
+  · exact alnum_applyCase u c hc n Y hY
+
+theorem validPrefix_head (p : Str) (h : validPrefix p = true) : headAlpha (alnum p) = true := by
+  unfold validPrefix at h
+  cases hp : alnum p with
+  | nil => simp [hp] at h
+  | cons c t => simpa [hp, headAlpha] using h
+
+theorem InD_of_prefix (e : Env) (p rest : Str) (h : validPrefix p = true) : InD e (p ++ rest) := by
+  have hh := validPrefix_head p h
+  obtain ⟨c, hc, ha⟩ := exists_alpha_of_headAlpha p hh
+  refine ⟨not_negNumber_of_alpha e _ c (by simp [hc]) ha, ?_⟩
+  rw [alnum_append]
+  exact headAlpha_append _ _ hh
+
+/-- from state D at most `b` rewrites are needed, where `b` makes up for the length of the slug -/
+theorem runD (e : Env) (u : UEnv) (cv : Conv) (hv : validPrefix cv.pfx = true) :
+    ∀ (b : Nat) (n : Str), InD e n → 9 ≤ (alnum n).length + b →
+      ∃ n' r, InD e n' ∧ applyCase u cv.case n' = some r ∧
+        safeNameFuel e u cv (b + 1) n = .ok r ∧ isReserved r = false := by
+  have hpl : 1 ≤ (alnum cv.pfx).length := by
+    have := ne_nil_of_headAlpha _ (validPrefix_head _ hv)
+    exact List.length_pos_iff.2 this
+  intro b
+  induction b with
+  | zero =>
+    intro n hD hlen
+    obtain ⟨Y, hY, _⟩ := case_some_of_InD e u cv.case n hD
+    have hres : isReserved Y = false := by
+      cases hr : isReserved Y
+      · rfl
+      · exfalso
+        have hmem : Y ∈ Tables.stopWords := by simpa [isReserved] using hr
+        have := (List.all_eq_true.1 stopWords_short) Y hmem
+        have hle : Y.length ≤ 8 := by simpa using this
+        have h1 := alnum_length_le Y
+        rw [alnum_case_InD e u cv.case n Y hD hY] at h1
+        omega
+    refine ⟨n, Y, hD, hY, ?_, hres⟩
+    rw [safeNameFuel, step_of_InD e u cv n Y hD hY]
+    simp [hres]
+  | succ b ih =>
+    intro n hD hlen
+    obtain ⟨Y, hY, _⟩ := case_some_of_InD e u cv.case n hD
+    cases hres : isReserved Y
+    · refine ⟨n, Y, hD, hY, ?_, hres⟩
+      rw [safeNameFuel, step_of_InD e u cv n Y hD hY]
+      simp [hres]
+    · have hD' := InD_suffixed e n cv.pfx hD
+      have hlen' : 9 ≤ (alnum (n ++ '_' :: cv.pfx)).length + b := by
+        rw [alnum_append, alnum_cons]
+        simp only [underscore_not_alnum, Bool.false_eq_true, if_false, List.length_append]
+        omega
+      obtain ⟨n', r, h1, h2, h3, h4⟩ := ih _ hD' hlen'
+      refine ⟨n', r, h1, h2, ?_, h4⟩
+      rw [safeNameFuel, step_of_InD e u cv n Y hD hY]
+      simp only [hres, if_true]
+      have : n ++ ['_'] ++ cv.pfx = n ++ '_' :: cv.pfx := by simp
+      rw [this]
+      exact h3
+
+/-- **termination for every accepted prefix**: eleven calls always suffice -/
+theorem run_valid (e : Env) (u : UEnv) (cv : Conv) (hv : validPrefix cv.pfx = true) (name : Str) :
+    ∃ n r, InD e n ∧ applyCase u cv.case n = some r ∧
+      safeNameFuel e u cv 11 name = .ok r ∧ isReserved r = false := by
+  by_cases hD : InD e name
+  · obtain ⟨n, r, h1, h2, h3, h4⟩ := runD e u cv hv 9 name hD (by omega)
+    exact ⟨n, r, h1, h2, fuel_mono e u cv r 10 name h3, h4⟩
+  · have hrec : ∃ rest, safeNameStep e u cv name = .recurse (cv.pfx ++ rest) := by
+      unfold safeNameStep
+      by_cases h1 : name.isEmpty = true
+      · exact ⟨[], by simp [h1]⟩
+      · simp only [h1]
+        by_cases h2 : isNegNumber e name = true
+        · exact ⟨"_minus_".toList ++ name, by simp [h2]⟩
+        · simp only [h2]
+          cases hsl : alnum name with
+          | nil => exact ⟨'_' :: name, by simp⟩
+          | cons c t =>
+            by_cases hc : isAsciiAlpha c = true
+            · exfalso; apply hD
+              refine ⟨by simpa using h2, ?_⟩
+              rw [hsl]; simpa [headAlpha] using hc
+            · exact ⟨'_' :: name, by simp [hc]⟩
+    obtain ⟨rest, hstep⟩ := hrec
+    obtain ⟨n, r, h1, h2, h3, h4⟩ := runD e u cv hv 9 _ (InD_of_prefix e cv.pfx rest hv) (by omega)
+    refine ⟨n, r, h1, h2, ?_, h4⟩
+    rw [safeNameFuel, hstep]
+    exact h3
+
+theorem goodPrefix_valid (cv : Conv) (hg : goodPrefix cv = true) : validPrefix cv.pfx = true := by
+  simp only [goodPrefix, Bool.and_eq_true, Bool.not_eq_true', List.all_eq_true] at hg
+  obtain ⟨⟨hne, hl⟩, _⟩ := hg
+  cases hp : cv.pfx with
+  | nil => simp [hp] at hne
+  | cons c t =>
+    have hc := alpha_of_lower c (hl c (by simp [hp]))
+    unfold validPrefix
+    rw [alnum_cons, alnum_of_alpha c hc]
+    simpa [isAsciiAlpha_lowerA] using hc
 
 end Proofs.Names
